@@ -319,11 +319,16 @@ class ReadableMiniShardCMC(CMCReadWrite):
         self.num_chunks = int(len(self.minishard_index) / 3)
 
     def fetch_cmc_chunk(self, cmc: np.uint64):
+        if self.num_chunks == 0:
+            raise ShardedIOError(f"Chunk {cmc} not found: empty minishard")
         idx_tally = self.minishard_index[0]
         chunk_idx = 0
 
         while idx_tally < cmc:
             chunk_idx += 1
+            if chunk_idx >= self.num_chunks:
+                raise ShardedIOError(f"Chunk {cmc} is not listed in the "
+                                     "minishard index")
             idx_tally += self.minishard_index[chunk_idx]
         if idx_tally != cmc:
             raise ShardedIOError(f"Expecting sum of first {chunk_idx} to equal"
